@@ -1,7 +1,13 @@
 use std::hash::Hash;
 use std::sync::Arc;
+#[cfg(not(cached_verif))]
 use std::sync::atomic::{AtomicBool, Ordering};
+#[cfg(cached_verif)]
+use shuttle::sync::atomic::{AtomicBool, Ordering};
+#[cfg(not(cached_verif))]
 use std::thread;
+#[cfg(cached_verif)]
+use shuttle::thread;
 
 use crossbeam_channel::{Receiver, select};
 use log::{debug, info, warn};
